@@ -1560,3 +1560,5 @@ benign_patch("refactor_s12_06", "benign/set12_06_output_level_helper.diff", note
 benign_patch("refactor_s12_07", "benign/set12_07_write_snapshot_enumerate.diff", note="write_snapshot: one read lock, `for (level, files) in version.files.iter().enumerate()` (correct twin of seed C10-W)")
 mut("batch_decoder_loops_until_empty", ["C01", "C15"], "GRD-34|<batch::Batch as std::convert::TryFrom<&[u8]>>::try_from", patch="batch_decoder_loops_until_empty.diff",
     note="the batch decoder ignores the stored count and decodes until the payload is used up")
+mut("revert_D29", ["C09"], "ORD-10b|compaction::worker::CompactionWorker::new::{closure#0}|thread-ends-only-on-terminate", patch="revert_D29_worker_leaves_on_the_shutdown_flag.diff",
+    note="the compaction thread exits on is_shutting_down with a scheduled task still queued: closing the database hangs (defect D29)")
